@@ -134,7 +134,7 @@ def alias_gate(fx):
             n += 1
             good = None
             for idf in ids:
-                ok, w = q.gated(v, bi, "call", idf, False)
+                ok, w = q.gated(v, bi, "call", idf, False, weak=True)
                 if ok:
                     good = idf
                     break
@@ -188,7 +188,7 @@ def _guarding_identity_test(fx, f, bi, ids, seen):
     """The identity-test function on whose `false` outcome block bi of f is control-dependent; if f is a private
     helper, every one of its call sites must be guarded in the caller instead. Returns (test, host fn, block)."""
     for idf in ids:
-        ok, w = q.gated(f, bi, "call", idf, False)
+        ok, w = q.gated(f, bi, "call", idf, False, weak=True)
         if ok:
             return idf, f, bi
     if f.path in seen or f.raw.get("exported") or f.raw.get("reachable"):
